@@ -365,7 +365,7 @@ func newSetB(r *rand.Rand) schemaSet {
 }
 
 func lowerNaming(n naming) naming {
-	out := naming{ver: n.ver}
+	out := naming{ver: n.ver, order: n.order}
 	for _, s := range n.svc {
 		out.svc = append(out.svc, strings.ToLower(s))
 	}
